@@ -77,10 +77,10 @@ theorem readUnixG_before1970_illFormed (trunc : α → Int) (htn : TruncNeg trun
     subst hm0
     simp [defaultZ]
 
-/-- B5: on a whole number of milliseconds before 1970 the round trip through `toAbsTime()` is exact:
-`toAbsTime(readUnixTime(−k/1000)) = −k/1000`. -/
-theorem toAbsG_readUnixG_before1970 (trunc : α → Int) (htn : TruncNeg trunc) (k : Nat) :
-    ∃ r, readUnixG trunc (-((k : α) / 1000)) = some r ∧ (toAbsG r : α) = -((k : α) / 1000) := by
+/-- B5: on a whole number `k` of milliseconds before 1970 the reader returns `negStamp (k div 1000) (−(k mod 1000))`, and the
+round trip through `toAbsTime()` is exact: `toAbsTime(readUnixTime(−k/1000)) = −k/1000`. -/
+theorem readUnixG_negMs (trunc : α → Int) (htn : TruncNeg trunc) (k : Nat) :
+    readUnixG trunc (-((k : α) / 1000)) = some (negStamp (k / 1000) (-((k % 1000 : Nat) : Int))) := by
   have hk : -((k : α) / 1000) = -(((k / 1000 : Nat) : α) + ((k % 1000 : Nat) : α) / 1000) := by
     have : (k : α) = ((k / 1000 * 1000 + k % 1000 : Nat) : α) := by rw [Nat.div_add_mod']
     rw [this]; push_cast; ring
@@ -88,16 +88,21 @@ theorem toAbsG_readUnixG_before1970 (trunc : α → Int) (htn : TruncNeg trunc) 
   have hf0 : (0 : α) ≤ ((k % 1000 : Nat) : α) / 1000 := by positivity
   have hf1 : ((k % 1000 : Nat) : α) / 1000 < 1 := by
     rw [div_lt_one (by norm_num)]; simpa using hlt
-  refine ⟨_, by rw [hk]; exact readUnixG_neg_nat_add_frac trunc htn _ _ hf0 hf1, ?_⟩
   have hms : trunc (-(((k % 1000 : Nat) : α) / 1000 * 1000)) = -((k % 1000 : Nat) : Int) := by
     have e : ((k % 1000 : Nat) : α) / 1000 * 1000 = ((k % 1000 : Nat) : α) + 0 := by ring
     rw [e, trunc_neg trunc, trunc_nat_add_frac (mirror trunc) htn.mirrorZ _ 0 (le_refl _) one_pos]
-  have := secondsZ_negStamp (k / 1000) (trunc (-(((k % 1000 : Nat) : α) / 1000 * 1000)))
-  unfold negStamp at this
+  rw [hk, readUnixG_neg_nat_add_frac trunc htn _ _ hf0 hf1, hms]
+  rfl
+
+theorem toAbsG_readUnixG_before1970 (trunc : α → Int) (htn : TruncNeg trunc) (k : Nat) :
+    ∃ r, readUnixG trunc (-((k : α) / 1000)) = some r ∧ (toAbsG r : α) = -((k : α) / 1000) := by
+  refine ⟨_, readUnixG_negMs trunc htn k, ?_⟩
   unfold toAbsG
-  rw [this, hk, hms]
-  simp only [Int.cast_neg, Int.cast_natCast, Int.cast_ofNat]
-  ring
+  rw [secondsZ_negStamp]
+  have : (k : α) = ((k / 1000 * 1000 + k % 1000 : Nat) : α) := by rw [Nat.div_add_mod']
+  rw [this]
+  simp only [negStamp, Int.cast_neg, Int.cast_natCast, Int.cast_ofNat]
+  push_cast; ring
 
 /-- B6: **there and back across 1970.** From a well-formed stamp, `addSec(k)` with a whole `k` that leads to 1970 or before
 returns an ill-formed stamp (B4) whose `toAbsTime()` is nevertheless exactly `toAbsTime() + k`, and `addSec(−k)` on THAT
@@ -135,6 +140,55 @@ theorem convertToZoneG_before1970_back (trunc : α → Int) (htr : TruncZ trunc)
   have e : (3600 * (z0 - z) : Int) = -(3600 * (z - z0)) := by ring
   simp only [convertToZoneG, e, h3, Option.map_some]
 
+/-- B9: **`addSec(k)` for a whole `k`, on both sides of 1970, with no domain hypothesis**: from a well-formed stamp the call
+returns `shiftMsZ t (1000 k)` — the integer model's stamp of `toAbsMs + 1000 k` when that is not negative (T12), the negated
+decomposition of `−(toAbsMs + 1000 k)` when it is. -/
+theorem addSecG_total (trunc : α → Int) (htr : TruncZ trunc) (htn : TruncNeg trunc) (t : Stamp) (h : WFs t) (k : Int) :
+    addSecG trunc t.toZ ((k : Int) : α) = some (shiftMsZ t (k * 1000)) := by
+  unfold shiftMsZ
+  by_cases hk : 0 ≤ (toAbsMs t : Int) + k * 1000
+  · simp only [hk, ↓reduceIte]
+    exact addSecG_whole trunc htr t h k hk
+  · simp only [hk, ↓reduceIte]
+    obtain ⟨j, hj⟩ := Int.eq_ofNat_of_zero_le (show 0 ≤ -((toAbsMs t : Int) + k * 1000) by omega)
+    have e : (toAbsG t.toZ : α) + ((k : Int) : α) = -((j : α) / 1000) := by
+      rw [toAbsG_toZ t h.1.2.2.2.1]
+      have : ((j : Int) : α) = -(((toAbsMs t : Int) : α) + ((k : Int) : α) * 1000) := by
+        rw [← hj]; push_cast; ring
+      simp only [Int.cast_natCast] at this
+      rw [this]; ring
+    unfold addSecG
+    rw [e, readUnixG_negMs trunc htn j, hj, Int.toNat_natCast]
+
+/-- B10: the same for `convertToZone(z)` on a well-formed stamp labelled `z0`: `shiftMsZ t (3 600 000 (z − z0))`, labelled `z`,
+whatever the target (Z3 without its hypothesis "not before 1970"). -/
+theorem convertToZoneG_total (trunc : α → Int) (htr : TruncZ trunc) (htn : TruncNeg trunc) (t : Stamp) (h : WFs t)
+    (z0 z : Int) :
+    convertToZoneG trunc (⟨t.toZ, z0⟩ : ObsZ) z = some ⟨shiftMsZ t (3600000 * (z - z0)), z⟩ := by
+  have := addSecG_total trunc htr htn t h (3600 * (z - z0))
+  unfold addSecG at this
+  have e : 3600 * (z - z0) * 1000 = 3600000 * (z - z0) := by ring
+  simp only [convertToZoneG, this, Option.map_some, e]
+
+/-- B11: `Track.convertToTimeZone(z)` and `Track.addSeconds(k)` (`k` whole) on ANY track of well-formed stamps, each with its
+own label — some targets before 1970, some not: stamp by stamp `shiftMsZ` (Z8 without its domain hypothesis). -/
+theorem convertToTimeZone_total (trunc : α → Int) (htr : TruncZ trunc) (htn : TruncNeg trunc) (z : Int)
+    (ts : List (Stamp × Int)) (h : ∀ p ∈ ts, WFs p.1) :
+    convertToTimeZone (α := α) trunc z (ts.map fun p => ⟨p.1.toZ, p.2⟩)
+      = some (ts.map fun p => ⟨shiftMsZ p.1 (3600000 * (z - p.2)), z⟩) := by
+  unfold convertToTimeZone
+  rw [List.mapM_map]
+  exact mapM_some_of_forall _ _ ts (fun p hp => convertToZoneG_total trunc htr htn p.1 (h p hp) p.2 z)
+
+theorem addSeconds_total (trunc : α → Int) (htr : TruncZ trunc) (htn : TruncNeg trunc) (k : Int)
+    (ts : List (Stamp × Int)) (h : ∀ p ∈ ts, WFs p.1) :
+    addSeconds trunc ((k : Int) : α) (ts.map fun p => ⟨p.1.toZ, p.2⟩)
+      = some (ts.map fun p => ⟨shiftMsZ p.1 (k * 1000), 0⟩) := by
+  unfold addSeconds
+  rw [List.mapM_map]
+  refine mapM_some_of_forall _ _ ts (fun p hp => ?_)
+  simp only [Function.comp, addZ, addSecG_total trunc htr htn p.1 (h p hp) k, Option.map_some]
+
 end Before1970
 
 /-- B8: `toAbsTime()` counts a year before 1970 as 1970: `range(1970, year)` is empty, so the years contribute nothing
@@ -168,5 +222,8 @@ example : readUnixNegSpec truncQ (-(864005 / 10)) = ⟨1970, 1, 0, 0, 0, 0, -500
 example : secondsZ ⟨1969, 12, 31, 23, 59, 59, 0⟩ = 31535999 := by decide +kernel
 example : WFs ⟨⟨1970, 1, 1, 0, 30, 0⟩, 7⟩ ∧ (toAbsMs ⟨⟨1970, 1, 1, 0, 30, 0⟩, 7⟩ : Int) + 3600000 * (-1 - 0) ≤ 0 := by
   unfold WFs WF monthDays isLeap; decide
+
+example : shiftMsZ ⟨⟨1970, 1, 1, 0, 30, 0⟩, 0⟩ (3600000 * (-1 - 0)) = ⟨1970, 1, 1, 0, -30, 0, 0⟩ := by decide +kernel
+example : shiftMsZ ⟨⟨1970, 1, 1, 0, 30, 0⟩, 7⟩ (3600000 * (1 - 0)) = ⟨1970, 1, 1, 1, 30, 0, 7⟩ := by decide +kernel
 
 end TV.C03
